@@ -781,6 +781,101 @@ func checkC12(c *Ctx) {
 		}
 	}
 
+	// ---- C12.10 every configured exclusion is in force: the processor keeps the whole configured exclusion list (a
+	// full copy or the list itself), not a filtered one - an exclusion carries no meaningful weight or port
+	r.Rule("C12.10", "the exclusion list of the processor is the whole configured list", 2)
+	{
+		n := 0
+		for _, f := range c.funcsOfPkgs(rp) {
+			for _, st := range fieldStores(f, "regprocessor.RegProcessor", "exclusionsFromOverride") {
+				n++
+				okk, how := false, ""
+				switch v := stripConv(st.Val).(type) {
+				case *ssa.Parameter:
+					okk, how = true, "the configured list itself"
+				case *ssa.MakeSlice:
+					// make([]Subnet, len(p)) filled by copy(field, p)
+					lp := pathOf(v.Len)
+					if strings.HasPrefix(lp, "len(") {
+						src := strings.TrimSuffix(strings.TrimPrefix(lp, "len("), ")")
+						for _, ci := range callsIn(f, func(_ string, cc *ssa.CallCommon) bool {
+							b, isB := cc.Value.(*ssa.Builtin)
+							return isB && b.Name() == "copy"
+						}) {
+							a := ci.Common().Args
+							if strings.HasSuffix(pathOf(a[0]), ".exclusionsFromOverride") && pathOf(a[1]) == src {
+								okk, how = true, "make(len("+src+")) + copy"
+							}
+						}
+					}
+				case *ssa.Call:
+					switch calleeName(&v.Call) {
+					case "slices.Clone":
+						okk, how = true, "slices.Clone"
+					}
+					if b, isB := v.Call.Value.(*ssa.Builtin); isB && b.Name() == "append" {
+						if k, isC := v.Call.Args[0].(*ssa.Const); isC && k.Value == nil {
+							if _, isP := v.Call.Args[1].(*ssa.Parameter); isP {
+								okk, how = true, "append(nil, list...)"
+							}
+						}
+					}
+				}
+				r.Check(okk, "C12.10", fnName(f)+": exclusionsFromOverride holds every configured exclusion", st.Pos(), fnName(f), how,
+					"the processor's exclusion list is built as "+firstN(pathOf(st.Val), 60)+", not as the whole configured list: an exclusion entry that a filter drops (no weight, no port - keys an exclusion does not need) is not in force, and phantoms inside the excluded subnet are moved into an override subnet")
+			}
+		}
+		if n == 0 {
+			r.Unk("C12.10", "stores of RegProcessor.exclusionsFromOverride", token.NoPos, "", "none found")
+		}
+	}
+
+	// ---- C12.9 a family the request declares and the registrar cannot select for fails the request: the stations run
+	// the same selection on the published request (which still declares the family) and drop the whole message
+	r.Rule("C12.9", "a failed phantom selection fails the bidirectional request", 2)
+	if f := c.fn("C12.9", rp, "RegProcessor", "processBdReq"); f != nil {
+		n := 0
+		for _, l := range findInstrDeep(f, func(l located) bool {
+			call, ok := l.call.(*ssa.Call)
+			return ok && call.Call.IsInvoke() && call.Call.Method.Name() == "Select" && strings.HasSuffix(typeShort(call.Call.Value.Type()), "ipSelector")
+		}, 1) {
+			call := l.call.(*ssa.Call)
+			g := l.in
+			n++
+			errEdges := edgesEstablishing(g, atomMatcher(errAtoms(call, false)...))
+			if len(errEdges) == 0 {
+				r.Bad("C12.9", fnName(g)+": the error of Select is not tested", call.Pos(), fnName(g), "the selection's error is never branched on")
+				continue
+			}
+			okAll := true
+			var w []int
+			for e := range errEdges {
+				succ := g.Blocks[e.from].Succs[e.slot]
+				hit, ww := reachAt(g, succ, func(in2 ssa.Instruction) bool {
+					ret, ok := in2.(*ssa.Return)
+					if !ok || len(ret.Results) == 0 {
+						return false
+					}
+					ev := returnedValue(ret, len(ret.Results)-1, nil)
+					cst, isC := ev.(*ssa.Const)
+					return isC && cst.Value == nil
+				}, nil, nil)
+				if hit {
+					okAll, w = false, ww
+				}
+			}
+			if okAll {
+				r.OK("C12.9", fmt.Sprintf("%s: a failing Select (#%d) fails the request", fnName(g), n), call.Pos(), "every path from its error edge ends in a non-nil error return")
+			} else {
+				r.Bad("C12.9", fmt.Sprintf("%s: a failing Select (#%d) can still end in an answer", fnName(g), n), call.Pos(), fnName(g),
+					"after a phantom selection failed, a path still returns a response and the request is published: the published request declares the family, the station's own selection fails the same way and it drops the whole message - the client is told a phantom no station holds", r.blockPath(g, w)...)
+			}
+		}
+		if n == 0 {
+			r.Unk("C12.9", "processBdReq: Select calls", f.Pos(), fnName(f), "none found")
+		}
+	}
+
 	// ---- C12.8 the configured override subnet is the network the operator wrote: the draw starts at IPNet.IP, so the
 	// stored network is ParseCIDR's masked result, untouched
 	r.Rule("C12.8", "override subnets are stored as the masked network ParseCIDR returns", 1)
